@@ -157,7 +157,9 @@ Definition hevent_defined (K : consts) (s : state) (e : hevent) : bool :=
   | HEv (EReindex i span n' ps fs) =>
     match nth_error (sroots s) i with Some r => is_some (reindex_M K (sh s) r span n' ps fs) | None => false end
   | HEv (EInit ci _) => is_some (nth_error (sroots s) ci)
-  | HEv (ELinkerInit ci _ _) => is_some (nth_error (sroots s) ci)
+  | HEv (ELinkerInit ci subs nme) =>
+    is_some (nth_error (sroots s) ci) &&
+    negb (has_key nme (flat_map (fun kj => match nth_error (sroots s) (snd kj) with Some l => [(fst kj, VR l)] | None => [] end) subs))
   | HInitFrom ci _ j _ _ => is_some (nth_error (sroots s) ci) && is_some (nth_error (sroots s) j)
   | _ => true
   end.
@@ -198,7 +200,8 @@ Proof.
     + destruct (nth_error (sroots s) i) as [r|]; [|discriminate]. destruct (linker_copy_M K (sh s) r) as [[h' r']|]; [|discriminate].
       cbn [sroots]. rewrite app_length. reflexivity.
     + destruct (nth_error (sroots s) ci) as [c|]; [|discriminate]. cbn [sroots]. rewrite app_length. reflexivity.
-    + destruct (nth_error (sroots s) ci) as [c|]; [|discriminate]. cbn [sroots]. rewrite app_length. reflexivity.
+    + destruct (nth_error (sroots s) ci) as [c|]; [|discriminate]. cbn [is_some andb] in D. apply negb_true_iff in D. rewrite D.
+      cbn [sroots]. rewrite app_length. reflexivity.
     + destruct (nth_error (sroots s) i) as [r|]; [|discriminate].
       destruct (reindex_M K (sh s) r span n' ps fs) as [[h' r']|]; [|discriminate]. cbn [sroots]. rewrite app_length. reflexivity.
   - cbn [run_hevent]. destruct (nth_error (sroots s) j); [rewrite fop_roots|]; lia.
